@@ -9,8 +9,8 @@ from hio import hioing  # noqa: E402
 PID = "C27"
 LEVEL = "model_checking"
 ASSUMPTIONS = ["names from {a,b,c,'',None}, addresses from {x,y,z,'',None}; registry driven through its public methods only"]
-NAMES = ["a", "b", "c", "", None]
-ADDRS = ["x", "y", "z", "", None]
+NAMES = ["a", "b", "ab", "", None]        # "a" and "b" are proper substrings of "ab"
+ADDRS = ["x", "y", "xy", "", None]        # "x" and "y" are proper substrings of "xy" (nested paths)
 
 
 def RULE(tier):
@@ -34,7 +34,7 @@ for n in NAMES:
         OPS.append(("chname", n, a))
 OPS.append(("clear", None, None))
 
-SEEDS = [(), (("a", "x"),), (("a", "x"), ("b", "y")), (("a", "x"), ("b", "y"), ("c", "z"))]
+SEEDS = [(), (("a", "x"),), (("a", "x"), ("b", "y")), (("a", "x"), ("b", "y"), ("ab", "xy"))]
 
 
 def jobs(tier):
